@@ -13,6 +13,8 @@ def run(ctx):
         behs = core.generate(ctx, "Gen_Gate.tla", "Gen_Gate%s.cfg" % variant, 150 if quick else 3000, 12, ctx.seed + (7 if mode == "pivot" else 0), timeout=600)
         if name == "gate":
             behs = core.generate(ctx, "Gen_Gate.tla", "Gen_Gate_bfs.cfg", 0, 0, ctx.seed, bfs=True, timeout=600) + behs
+        if mode != "logs":     # the life of one task in every order of issue / hand-out / answer, then any second callback
+            behs = core.generate(ctx, "Gen_Gate.tla", "Gen_Gate_life.cfg", 0, 0, ctx.seed, bfs=True, timeout=600) + behs
         trace, summ = core.run_harness(ctx, hb, "gate", behs, name, mode=mode, timeout=1500)
         for inc in summ["incidents"]:
             core.report(ctx, {"check": "replay", "kind": inc["kind"], "site": inc["site"]}, inc)
